@@ -1,4 +1,5 @@
 import GrpcProofs.Lemmas.ServerAdmission
+import GrpcProofs.Lemmas.Timeout
 /-!
 C12 — A misbehaving client cannot reach a handler illegally, and active streams never exceed
 MaxConcurrentStreams.
@@ -149,6 +150,18 @@ theorem handle_implies_legal (s : SrvState) (r : Req) (to : Option Nat) (h : ser
       unfold setsProtocolError
       rw [hn, kindOf_connection]
     rw [this] at hproto; cases hproto
+
+/-- **handle ⇒ every grpc-timeout is in the wire grammar** `1*8DIGIT ( H / M / S / m / u / n )`: the
+admission model judges a timeout with the SAME `decodeBytes` the C07 model is about, whose accepted
+language `GrpcProofs.Lemmas.Timeout.decode_accepts_iff` characterises exactly — no sign, no space,
+no more than eight digits. -/
+theorem handle_implies_timeout_grammar (s : SrvState) (r : Req) (to : Option Nat) (h : serve s r = .handle to) :
+    ∀ f ∈ r.raw, f.name = str "grpc-timeout" → GrpcModel.Timeout.wellFormed f.value = true := by
+  intro f hf hn
+  have hl := (handle_implies_legal s r to h).2.2.2.1
+  have := hl.timeout f hf hn
+  rw [GrpcProofs.Lemmas.Timeout.decode_accepts_iff] at this
+  exact this
 
 /-- the request of the counterexample: a valid request plus a second, invalid content-type -/
 def mixedContentType : Req :=
